@@ -105,6 +105,14 @@ class RtlReader(object):
 
                     msgbin.append(c)
 
+                # the frame length follows from the DF (first bit), noise
+                # above the threshold after the last bit is not part of it
+                if len(msgbin) > 0:
+                    nbits = fbits if msgbin[0] == 1 else fbits // 2
+                    if len(msgbin) > nbits:
+                        msgbin = msgbin[:nbits]
+                        j = nbits * 2
+
                 # advance i with a jump
                 i = frame_start + j
 
